@@ -18,6 +18,8 @@
     object.  Between the test and `execute` the arguments are evaluated (`_compute_node` on the expression pathway,
     `**call.arguments` on the structured path), and that evaluation may re-enter the public registration API
     (`during : List RegOp`): the registry changes, the object that runs is still the vetted one;
+  * a tool body may itself use the registration API while it runs (`St.effects`, by identity of the callable); it
+    does not request tools;
   * the provider of the tool loop is an adversary: it answers each round with any list of calls and may use the
     registration API before it answers (`Round.before`);
   * the ROS latch, the length guard and the pathway auto-detection of `metabolize` are inputs (`pre`):
@@ -115,6 +117,7 @@ structure St where
   reg : Registry := []
   allowed : Option (List Cap) := none    -- `self.allowed_capabilities`
   events : List Ev := []                 -- tool bodies that ran, oldest first
+  effects : List (Nat × List RegOp) := [] -- what a tool body (by identity) does to the registry when it runs
   rosErrors : Nat := 0                   -- number of `_ros_accumulated += 0.1`
   deriving Repr
 
@@ -136,14 +139,18 @@ inductive Pre where
   | tooLong | rosLatched | oxidative | otherPathway (argsEvaluated : Bool)
   deriving Repr, DecidableEq
 
-/-- run the body of a tool: it is executed (event) and returns or raises -/
+/-- argument evaluation (or a tool body) re-entering the registration API -/
+def during (s : St) (ops : List RegOp) : St := { s with reg := s.reg.applyAll ops }
+
+/-- the registry operations the body `b` performs when it runs (a plug-in loader, a tool that retires itself, …) -/
+def bodyOps (s : St) (b : Nat) : List RegOp := (s.effects.filter (fun p => p.1 == b)).flatMap (·.2)
+
+/-- run the body of a tool: it is executed (event), may use the registration API, and returns or raises -/
 def runBody (s : St) (t : Tool) : St × Res :=
   if t.raises then
-    ({ s with events := s.events ++ [⟨t, s.allowed⟩], rosErrors := s.rosErrors + 1 }, .failure "ToolRaised")
-  else ({ s with events := s.events ++ [⟨t, s.allowed⟩] }, .success)
-
-/-- argument evaluation re-entering the registration API -/
-def during (s : St) (ops : List RegOp) : St := { s with reg := s.reg.applyAll ops }
+    ({ during s (bodyOps s t.body) with events := s.events ++ [⟨t, s.allowed⟩], rosErrors := s.rosErrors + 1 },
+      .failure "ToolRaised")
+  else ({ during s (bodyOps s t.body) with events := s.events ++ [⟨t, s.allowed⟩] }, .success)
 
 /-- `_oxidative_phosphorylation` inside `metabolize`'s blanket handler -/
 def oxidative (g : Guards) (s : St) (callee : Callee) (argsOk : Bool) (ops : List RegOp) : St × Res :=
@@ -210,6 +217,7 @@ inductive Op where
   | unregister (n : String)
   | redeclare (n : String) (req caps : Option (List Cap))
   | setCeiling (al : Option (List Cap))
+  | script (body : Nat) (ops : List RegOp)      -- from now on the callable `body` performs `ops` whenever it runs
   | metabolize (pre : Pre) (callee : Callee) (argsOk : Bool) (ops : List RegOp)
   | call (n : String) (ops : List RegOp)
   | loop (maxIter : Nat) (autoExecute : Bool) (rounds : List Round)
@@ -222,6 +230,7 @@ def step (g : Guards) (s : St) : Op → St
   | .unregister n => { s with reg := s.reg.erase n }
   | .redeclare n req caps => { s with reg := s.reg.redeclare n req caps }
   | .setCeiling al => { s with allowed := al }
+  | .script b ops => { s with effects := s.effects ++ [(b, ops)] }
   | .metabolize pre callee argsOk ops => (metabolize g s pre callee argsOk ops).1
   | .call n ops => (executeToolCall g s n ops).1
   | .loop k auto rounds => if s.reg.isEmpty then s else (toolLoop g k auto s rounds).1
